@@ -1,4 +1,4 @@
-import FitProps.ValueUnmarshalLemmas
+import FitProps.ValueReencodeLemmas
 /-!
 # C06 — Protocol values marshal to their declared size and unmarshal to themselves
 
@@ -7,8 +7,13 @@ families `value` / `unm` / `vany`.
 
 PROPERTY THEOREMS (audited by ./check): C06_size_eq_len, C06_marshal_total, C06_marshal_bytes,
 C06_unmarshal_marshal_partial, C06_unmarshal_marshal_full_fails, C06_norm_id, C06_norm_bool, C06_norm_string, C06_norm_strings,
-C06_unmarshal_guard, C06_unmarshal_no_panic, C06_unmarshal_err_iff, C06_tag, C06_raw_len, C06_no_cross_type,
-C06_any_roundtrip, C06_align_by_type
+C06_unmarshal_guard, C06_unmarshal_no_panic, C06_unmarshal_err_iff, C06_unmarshal_bool_array, C06_unmarshal_reencode_partial,
+C06_tag, C06_raw_len, C06_no_cross_type, C06_any_roundtrip, C06_align_by_type
+
+`typedef.Bool` arrays (finding KF-C01-boolarr, repaired in /repo 5da5106): `UnmarshalValue` clamps the elements of a bool
+ARRAY exactly as `proto.Bool` clamps a single value (`C06_unmarshal_bool_array`), so that what it returned for ANY bytes
+re-marshals and reads back as itself (`C06_unmarshal_reencode_partial`; before the repair `[]typedef.Bool{0x1C}` read back as
+`{255}`). The round-trip theorem was unaffected (`MarshalAppend` already wrote 255 for such elements).
 
 Known finding KF-C06-1 (F02): `utf8String` drops a well-formed U+FFFD; the round-trip theorem is therefore
 `…_partial` (hypothesis `clean`), the full statement is `C06_unmarshal_marshal_full`, refuted on the witness.
@@ -283,6 +288,57 @@ theorem C06_unmarshal_err_iff (bs : List Nat) (a bt : Nat) (isBool isArray : Boo
   · rw [h', hv]
     unfold decScalar
     split <;> simp
+
+/-! ### `typedef.Bool` arrays, and re-marshalling what `UnmarshalValue` returned -/
+
+/-- **A bool ARRAY is read element by element exactly as a single bool is.** For a field whose profile type is bool
+(one-byte base types enum / byte / uint8 / uint8z) and ANY bytes: the array read returns as many elements as there are
+bytes, element `i` is what the scalar read of byte `i` alone returns, and every element lies in the domain of
+`typedef.Bool` {0, 1, 255 = invalid}. (On the pinned tree the array read returned the bytes as they were: finding
+KF-C01-boolarr.) -/
+theorem C06_unmarshal_bool_array (bs : List Nat) (a bt : Nat)
+    (hbt : bt = btEnum ∨ bt = btByte ∨ bt = btUint8 ∨ bt = btUint8z) :
+    ∃ xs, unmarshal bs a bt true true = .ok (.sliceBool xs) ∧ xs.length = bs.length ∧
+      (∀ i (h : i < bs.length) (h' : i < xs.length), unmarshal [bs[i]] a bt true false = .ok (.bool xs[i])) ∧
+      (∀ x ∈ xs, x = 0 ∨ x = 1 ∨ x = 255) := by
+  refine ⟨bs.map clampBool, ?_, by simp, ?_, ?_⟩
+  · rcases hbt with h | h | h | h <;> subst h <;> simp [unmarshal, btEnum, btByte, btUint8, btUint8z, btSint8]
+  · intro i h h'
+    rcases hbt with h | h | h | h <;> subst h <;>
+      simp [unmarshal, btEnum, btByte, btUint8, btUint8z, btSint8, decScalar_single, mkBool_eq]
+  · intro x hx
+    obtain ⟨b, _, rfl⟩ := List.mem_map.mp hx
+    exact clampBool_cases b
+
+example : unmarshal [0x1C, 1, 0, 0xFF, 2] 0 btEnum true true = .ok (.sliceBool [255, 1, 0, 255, 255]) := by decide
+
+/-- the statement below for EVERY base type, strings included -/
+def C06_unmarshal_reencode_full : Prop :=
+  ∀ (bs : List Nat) (a a' bt : Nat) (isBool isArray : Bool) (v : Value), (∀ b ∈ bs, b < 256) →
+    unmarshal bs a bt isBool isArray = .ok v →
+    ∃ bs', marshal v a' = some bs' ∧ unmarshal bs' a' bt isBool isArray = .ok v
+
+/-- **What `UnmarshalValue` returned re-marshals and reads back as itself** (partial: numeric base types; for strings the
+statement `C06_unmarshal_reencode_full` needs that `utf8String` is idempotent on its own output — it is the identity on clean
+strings, `utf8String_clean`, but that its output IS clean is not proved here). For ANY bytes, any of the 16 numeric base
+types, any profile-bool / array flags and any two byte orders `a`, `a'`: the value read from the bytes can be marshalled
+(it is never the invalid value) in byte order `a'`, and reading those bytes under the same base type and flags returns
+that very value — scalars, arrays (a trailing partial element was dropped by the first read), `typedef.Bool` scalars and,
+since /repo 5da5106, `typedef.Bool` arrays. This is the value layer of the last sentence of C01 ("re-encoding what the
+decoder returned gives the same messages"). -/
+theorem C06_unmarshal_reencode_partial (bs : List Nat) (a a' bt : Nat) (isBool isArray : Bool) (v : Value)
+    (hb : ∀ b ∈ bs, b < 256) (hs : bt ≠ btString) (h : unmarshal bs a bt isBool isArray = .ok v) :
+    ∃ bs', marshal v a' = some bs' ∧ unmarshal bs' a' bt isBool isArray = .ok v :=
+  unmarshal_reencode bs a a' bt isBool isArray v hb hs h
+
+/-- non-vacuity: a big-endian uint16 array with a trailing odd byte, re-marshalled little-endian; the former witness of
+KF-C01-boolarr -/
+example : unmarshal [1, 2, 3, 4, 5] 1 btUint16 false true = .ok (.sliceUint16 [0x0102, 0x0304]) ∧
+    marshal (.sliceUint16 [0x0102, 0x0304]) 0 = some [2, 1, 4, 3] ∧
+    unmarshal [2, 1, 4, 3] 0 btUint16 false true = .ok (.sliceUint16 [0x0102, 0x0304]) := by decide
+example : unmarshal [0x1C, 1] 0 btEnum true true = .ok (.sliceBool [255, 1]) ∧
+    marshal (.sliceBool [255, 1]) 0 = some [255, 1] ∧
+    unmarshal [255, 1] 0 btEnum true true = .ok (.sliceBool [255, 1]) := by decide
 
 /-! ### tags and accessors -/
 
